@@ -2478,6 +2478,135 @@ let rec run_actions acts ps ev_target fresh sent w =
             send true t_DESPAWN (resolve_tgt w0 t ev_target fresh) { ev_ser =
               N0; ev_val = N0; ev_id = kEY_NULL } w0 fresh)
 
+(** val fetch_get :
+    world -> query -> centry list -> key -> (fail, n * item list) sum **)
+
+let fetch_get w q c e =
+  match sm_get e w.w_ents with
+  | Some loc ->
+    (match find (fun ce -> N.eqb (ce_idx ce) (fst loc)) c with
+     | Some _ ->
+       (match recv_item w q c loc with
+        | Inl f -> Inl f
+        | Inr it -> Inr ((Npos (XO (XI (XO XH)))), (it :: [])))
+     | None -> Inr ((Npos (XO (XO (XI XH)))), []))
+  | None -> Inr ((Npos (XI (XI (XO XH)))), [])
+
+(** val has_dup : key list -> bool **)
+
+let rec has_dup = function
+| [] -> false
+| x :: t -> (||) (existsb (key_eqb x) t) (has_dup t)
+
+(** val fetch_get_all :
+    world -> query -> centry list -> key list -> (fail, n * item list) sum **)
+
+let rec fetch_get_all w q c = function
+| [] -> Inr ((Npos (XO (XO (XI (XO XH))))), [])
+| e :: t ->
+  (match fetch_get w q c e with
+   | Inl f -> Inl f
+   | Inr p ->
+     let (n0, its) = p in
+     (match n0 with
+      | N0 -> Inr ((Npos (XI (XI (XI (XO XH))))), [])
+      | Npos p0 ->
+        (match p0 with
+         | XI p1 ->
+           (match p1 with
+            | XI p2 ->
+              (match p2 with
+               | XO p3 ->
+                 (match p3 with
+                  | XH -> Inr ((Npos (XO (XI (XI (XO XH))))), [])
+                  | _ -> Inr ((Npos (XI (XI (XI (XO XH))))), []))
+               | _ -> Inr ((Npos (XI (XI (XI (XO XH))))), []))
+            | _ -> Inr ((Npos (XI (XI (XI (XO XH))))), []))
+         | XO p1 ->
+           (match p1 with
+            | XI p2 ->
+              (match p2 with
+               | XO p3 ->
+                 (match p3 with
+                  | XH ->
+                    (match fetch_get_all w q c t with
+                     | Inl f -> Inl f
+                     | Inr other ->
+                       let (n1, r) = other in
+                       (match n1 with
+                        | N0 -> Inr other
+                        | Npos p4 ->
+                          (match p4 with
+                           | XO p5 ->
+                             (match p5 with
+                              | XO p6 ->
+                                (match p6 with
+                                 | XI p7 ->
+                                   (match p7 with
+                                    | XO p8 ->
+                                      (match p8 with
+                                       | XH ->
+                                         Inr ((Npos (XO (XO (XI (XO XH))))),
+                                           (app its r))
+                                       | _ -> Inr other)
+                                    | _ -> Inr other)
+                                 | _ -> Inr other)
+                              | _ -> Inr other)
+                           | _ -> Inr other)))
+                  | _ -> Inr ((Npos (XI (XI (XI (XO XH))))), []))
+               | _ -> Inr ((Npos (XI (XI (XI (XO XH))))), []))
+            | _ -> Inr ((Npos (XI (XI (XI (XO XH))))), []))
+         | XH -> Inr ((Npos (XI (XI (XI (XO XH))))), []))))
+
+(** val fetch_get_many :
+    world -> query -> centry list -> key list -> (fail, n * item list) sum **)
+
+let fetch_get_many w q c es =
+  if has_dup es
+  then Inr ((Npos (XI (XO (XI (XO XH))))), [])
+  else fetch_get_all w q c es
+
+(** val probe_lists : key list -> (bool * key list) list **)
+
+let probe_lists = function
+| [] -> []
+| e0 :: l ->
+  (match l with
+   | [] -> (false, (e0 :: [])) :: []
+   | e1 :: l0 ->
+     (match l0 with
+      | [] ->
+        (false, (e0 :: [])) :: ((false, (e1 :: [])) :: ((true,
+          (e0 :: (e1 :: []))) :: ((true, (e0 :: (e1 :: (e0 :: [])))) :: [])))
+      | e2 :: _ ->
+        (false, (e0 :: [])) :: ((false, (e1 :: [])) :: ((false,
+          (e2 :: [])) :: ((true, (e0 :: (e1 :: []))) :: ((true,
+          (e0 :: (e1 :: (e0 :: [])))) :: ((true,
+          (e1 :: (e2 :: (e2 :: [])))) :: ((true,
+          (e2 :: (e0 :: (e1 :: [])))) :: []))))))))
+
+(** val run_probes :
+    world -> query -> centry list -> (bool * key list) list -> (fail,
+    (n * item list) list) sum **)
+
+let rec run_probes w q c = function
+| [] -> Inr []
+| p :: t ->
+  let (many, es) = p in
+  let r =
+    if many
+    then fetch_get_many w q c es
+    else (match es with
+          | [] -> Inr ((Npos (XI (XI (XO XH)))), [])
+          | e :: _ -> fetch_get w q c e)
+  in
+  (match r with
+   | Inl f -> Inl f
+   | Inr x ->
+     (match run_probes w q c t with
+      | Inl f -> Inl f
+      | Inr xs -> Inr (x :: xs)))
+
 (** val ev_has_payload : bool -> n -> bool **)
 
 let ev_has_payload targeted tag =
@@ -2512,9 +2641,13 @@ let rec param_views w ps loc =
           let items = map snd its in
           (match k with
            | FkFetcher ->
-             (match param_views w t loc with
+             (match run_probes w q c (probe_lists w.w_h.k_ids) with
               | Inl f -> Inl f
-              | Inr p0 -> let (r, v) = p0 in Inr (r, ((N0, items) :: v)))
+              | Inr probes ->
+                (match param_views w t loc with
+                 | Inl f -> Inl f
+                 | Inr p0 ->
+                   let (r, v) = p0 in Inr (r, (app ((N0, items) :: probes) v))))
            | FkSingle ->
              if negb (N.eqb (nlen items) (Npos XH))
              then Inl (FPanic (Npos (XO XH)))
